@@ -59,6 +59,7 @@ type pool struct {
 	next     int
 	busy     int
 	tier     int
+	prop     string
 	deadline time.Time
 }
 
@@ -184,6 +185,7 @@ func (p *pool) worker(wid int, wg *sync.WaitGroup) {
 			m.Sh = h.Sh
 			m.Name = h.Meta.Name
 			m.Tier = p.tier
+			m.Prop = p.prop
 			m.Unwind = h.Meta.Unwind
 			m.MaxDepth = h.Meta.Depth
 			m.SplitBounds = h.Meta.Split
@@ -416,7 +418,7 @@ func cmdCheck(args []string) int {
 		}
 	}
 
-	p := &pool{}
+	p := &pool{prop: prop}
 	p.cond = sync.NewCond(&p.mu)
 	if *tier == "thorough" {
 		p.tier = 1
